@@ -9,7 +9,7 @@ PROP = "C16"
 PROOF_MODULES = ["Abverif.Proofs.C16", "Abverif.Proofs.Lemmas.HeaderTable", "Abverif.Proofs.C02", "Abverif.Proofs.Lemmas.WsFrame", "Abverif.Proofs.Lemmas.WsExt", "Abverif.Proofs.Lemmas.WsSeg", "Abverif.Proofs.Lemmas.WsSeg2", "Abverif.Proofs.Lemmas.WsData", "Abverif.Proofs.WsSegmentation", "Abverif.Proofs.Lemmas.WsJudge", "Abverif.Proofs.Lemmas.WsJudge2", "Abverif.Proofs.WsRefinement", "Abverif.Proofs.C01", "Abverif.Proofs.C15", "Abverif.Proofs.Lemmas.WsEncode", "Abverif.Proofs.WsRoundtrip", "Abverif.Proofs.WsJudgeProps"]
 MANIFEST_ENTRY = {
     "technique": 'Lean 4 theorems about the limit checks (at-header failure, send refusal writes nothing, transparency below the limit) + correspondence with header-only delivery + zlib-peer oracle for the decompression cap',
-    "text": 'Proved on the model: an over-limit sendMessage raises and changes nothing else; the receive limits are evaluated in onMessageFrameBegin on the declared length, i.e. at the header and before any payload octet of that frame is buffered, failing with 1009 per fail policy; within limits the check is pure bookkeeping; after a failure nothing is buffered or delivered; delivered_message_within_limit (Proofs/WsJudgeProps.lean): for every octet stream in every segmentation fed to a fresh endpoint (failByDrop), no delivered message is longer than maxMessagePayloadSize - a corollary of recv_refines_judge and the judge invariant (declared lengths summed, 1009 as soon as the sum crosses the limit). Tied to the code by per-read comparison incl. header-only delivery (payload withheld) and by the Spec judge (1009 exactly when a declared length crosses a limit). The decompression cap and refused compressed sends are outside the model: implementation-level oracle with an independent zlib peer (three known findings).',
+    "text": 'Proved on the model: an over-limit sendMessage raises and changes nothing else; the receive limits are evaluated in onMessageFrameBegin on the declared length, i.e. at the header and before any payload octet of that frame is buffered, failing with 1009 per fail policy; within limits the check is pure bookkeeping; after a failure nothing is buffered or delivered; delivered_message_within_limit (Proofs/WsJudgeProps.lean): for every octet stream in every segmentation fed to a fresh endpoint (failByDrop), no delivered message is longer than maxMessagePayloadSize - a corollary of recv_refines_judge and the judge invariant (declared lengths summed, 1009 as soon as the sum crosses the limit). Tied to the code by per-read comparison incl. header-only delivery (payload withheld) and by the Spec judge (1009 exactly when a declared length crosses a limit). The decompression cap and refused compressed sends are outside the Ws model (the codec is not modelled there): implementation-level oracle with an independent zlib peer - an over-cap compressed message (one frame or fragmented, delivered whole or in small reads, compressible or not) is never delivered whole, truncated or altered, the connection is failed with 1009 per fail policy and nothing escapes dataReceived, messages within the cap and their successors arrive intact; a refused compressed send writes nothing and later messages inflate at the peer (C12 lossless_with_send_limit proves the latter on the codec-contract model). The three defects found here (truncation, corrupted successor, desynchronised compressor) were repaired in /repo (b798f81c, 93aa9965).',
     "note": 'Trusted: Lean kernel; model tied by differential execution; limits are in declared (wire) payload octets; zlib.',
 }
 TRUSTED = [
